@@ -11,7 +11,7 @@ ENGINE_TB = [
     "engine model = Engine/Model.v (all query kinds, sequentialised) and Engine/Core.v (inputs + normal queries), written by hand; tied to crates/qbice/src/engine/computation_graph* by exact comparison of answers, SetInputResults, the multiset of executor invocations per operation, (where deterministic) the dirtied-edge statistic and, after every operation, the persisted bookkeeping of every query (computed or not, pending backward projection, transitive firewall callees, dependency order, observed dependencies and which observations are current in value / in firewall fingerprint, dirty edges) read through the hook qbice::verif_hooks::dump_node, on this run's random histories",
     "fingerprints are modelled by the values themselves (H-hash: no 128-bit collision among the values in play)",
     "the from-scratch oracle (harness/src/prog.rs `oracle`) judges the real engine independently of the model",
-    "parallel tasks inside one request (transitive-firewall repair, unordered groups, backward projections) are sequentialised in the model; runs use a current-thread runtime so that the comparison is deterministic (multi-thread runs are judged by the oracle only)",
+    "parallel tasks inside one request (transitive-firewall repair, unordered groups, backward projections) are sequentialised in the model; runs use a current-thread runtime (multi-thread runs are judged by the oracle only). Executions and bookkeeping are compared exactly on programs where those tasks cannot meet (modes basic, tfc, fw-free cyclic, `layered`: firewalls read no firewall/projection, projections read firewalls only); on unrestricted programs (mode `all`) answers are compared exactly and a difference in executions/bookkeeping only is counted as schedule-dependent (evidence: schedule_dependent_cases), every real execution still being judged by the justification oracle",
 ]
 
 def run_hist(ctx, outdir, seed, n, shards, cfg, mode, threads=1, hang_secs=20, dump=True):
@@ -27,12 +27,22 @@ def run_hist(ctx, outdir, seed, n, shards, cfg, mode, threads=1, hang_secs=20, d
         raise vlib.CheckError(f"engine harness failed ({mode},{cfg}):\n" + txt[-2000:])
     return json.loads(txt.strip().splitlines()[-1])
 
+SCHEDULE_DEPENDENT = {"count": 0, "sample": None}
+
 def model_compare(pid, outdir, fn="failures"):
+    """fn = graded_failures: a case whose answers agree with the model but whose executions or
+    bookkeeping differ is counted (SCHEDULE_DEPENDENT) and not reported; see Check.v"""
     shard_files = sorted(glob.glob(os.path.join(outdir, "shard_*.txt")))
     fails, errors, total = vlib.run_coq_cases(pid, shard_files, HEADER, fn=fn)
     dis = []
     for path, idx in fails.items():
         lines = [l for l in open(path).read().splitlines() if l.strip()]
+        if fn == "graded_failures":
+            soft = [i // 2 for i in idx if i % 2 == 0]
+            SCHEDULE_DEPENDENT["count"] += len(soft)
+            if soft and SCHEDULE_DEPENDENT["sample"] is None:
+                SCHEDULE_DEPENDENT["sample"] = {"shard": path, "index": soft[0], "case": lines[soft[0]][:1500]}
+            idx = [i // 2 for i in idx if i % 2 == 1]
         for i in idx[:3]:
             dis.append({"shard": os.path.basename(path), "index": i, "case": lines[i]})
     if errors:
